@@ -129,6 +129,13 @@ def _norm(x):
     if isinstance(x, list): return [_norm(y) for y in x]
     return 0 if x is None else x
 
+STRUCTURAL = {'TTuple': '(int32, int32)', 'TArray': '[int32; 2]', 'TFunc': '(int32) -> int32', 'TDyn': 'dyn Tr'}
+def replay_structural(target, cons):
+    src = 'trait Tr { fn m(Self) -> unit; }\n#[derive(%s)]\nstruct S { f: %s }\nfn main() -> unit { string_println("a") }\n' % (target, STRUCTURAL[cons])
+    out = cli(src); errs = [l for l in out.splitlines() if l.startswith('error')]
+    ok_ = bool(errs) and not any('`#[derive(' in l for l in errs)
+    return ok_, 'goml `%s`: %s' % (src.replace('\n', ' | '), ('rejected after derive, inside the generated code: ' + errs[0][:160]) if ok_ else ('rejected by derive itself: ' + errs[0][:160] if errs else 'accepted'))
+
 def replay(kind, target, names, tynames, payloads, key):
     """compile a program with the definition through the real CLI; the finding reproduces iff (conversion / capture classes) the compiler rejects it in a
     stage after derive, or (template classes) the generated method printed by --dump-ast does not have the documented template"""
@@ -142,7 +149,7 @@ def replay(kind, target, names, tynames, payloads, key):
     show = src.replace('\n', ' | ')
     if key in ('conversion-missing', 'helper-captured'):
         stages = re.findall(r'error \((\w+)\)', out)
-        ok_ = bool(stages) and all(s_ != 'derive' for s_ in stages)
+        ok_ = bool(stages) and all(s_ != 'derive' for s_ in stages) and '`#[derive(' not in out       # the CLI prints derive's own diagnostics under the stage of the caller: recognise them by their text
         return ok_, 'goml `%s`: %s' % (show, ('rejected after derive: ' + out.strip().split('\n')[0][:160]) if ok_ else 'accepted or rejected by derive itself: ' + out.strip()[:120])
     if key == 'conversion-not-json':
         body = native_pieces(out, meth)
@@ -190,7 +197,7 @@ def ob_derive(r, tier, seed, kind, target, nfields, name_sets, ty_allowed=None, 
     r.assumptions = ['oracle (template): evaluating the generated method with a reference evaluator, members replaced by the JSON value 0, gives text that a JSON parser reads as the object {field: 0, ...} in declaration order (struct) or {"tag": V, "fields": [0, ...]} / {"tag": V} (enum); to_string gives `Name { f: 0, .. }` / `E::V(0, ..)`',
                      'oracle (conversion): a field of a scalar type is converted by a builtin function of signature (that type) -> string declared in builtin.gom or by a method registered for that type by builtins::builtin_inherent_methods (executed from its MIR); strings are escaped with json_escape_string and bools printed with bool_to_json under ToJson',
                      'oracle (hygiene): a helper called by name is not a variable bound by the generated pattern',
-                     'composite field types (tuples, arrays, functions, dyn, applications, user types) are only required to be converted by a .to_json() / .to_string() method call or rejected by derive: whether such a method exists depends on the rest of the program (outside)']
+                     'a member of a tuple / array / function / dyn type must be rejected by derive itself (no method can exist for such a type: inherent impls on them are not allowed - confirmed through the CLI); user-defined and applied types are only required to be converted by a .to_json() / .to_string() method call: whether such a method exists depends on the rest of the program (outside)']
     ident = lambda n: Agg(AI.key, 0, [mkstr(n)])
     int32 = Agg(TE.key, TE.vindex('TInt32'), [])
     spec = Spec(tt, crate='ast', allowed={'TypeExpr': tynames}, leaves={'TypeExpr': ['TInt32']}, strings=('T',), vec_len=(1, 1), int_choices=[2], depth=1,
@@ -338,6 +345,11 @@ def ob_derive(r, tier, seed, kind, target, nfields, name_sets, ty_allowed=None, 
                 if b[0] != 'field': add('wrong-member', 'a member converts `self` instead of a field', {}, rp_with(default_t)); continue
                 fi = b[1]
                 for cons in fdoms[fi]:
+                    if cons in STRUCTURAL:
+                        if not any(f.key == 'structural-member-accepted' for f in r.findings):
+                            ok_, detail = replay_structural(target, cons)
+                            r.findings.append(Finding('structural-member-accepted', 'derive(%s) accepts a member of type %s and generates a .%s() call on it; no such method can exist (inherent impls on tuple / array / function / dyn types are rejected), so the generated code fails in the type checker instead of derive reporting the member' % (target, cons, meth), {'type': cons}, ok_, detail))
+                        continue
                     if cons not in SCALARS:
                         if c_[0] != 'method' or c_[1] != meth:
                             tn = list(default_t); add('wrong-composite-conversion', 'a field of type %s is converted by %s, not by a .%s() call' % (cons, c_[:2], meth), {'type': cons}, rp_with(tn))
